@@ -595,6 +595,25 @@ theorem foldl_parseStep_none_of_mem (w : World) (parsed : List (String × ObjId)
       rw [this, foldl_parseStep_none]
     · exact ih _ h
 
+theorem regGet_regAppend (r : List (Path × List ObjId)) (k : Path) (o : ObjId) : o ∈ regGet (regAppend r k o) k := by
+  induction r with
+  | nil => simp [regGet, regAppend, List.lookup]
+  | cons x xs ih =>
+    by_cases hx : x.1 = k
+    · simp [regGet, regAppend, List.lookup, hx]
+    · have hx1 : (x.1 == k) = false := beq_eq_false_iff_ne.2 hx
+      have hx2 : (k == x.1) = false := beq_eq_false_iff_ne.2 (fun h => hx h.symm)
+      unfold regGet regAppend at ih ⊢
+      cases ha : xs.any (fun e => e.1 == k) with
+      | true =>
+        simp only [ha, ↓reduceIte] at ih
+        simp only [List.any_cons, hx1, ha, Bool.false_or, ↓reduceIte, List.map_cons, Bool.false_eq_true, List.lookup, hx2]
+        exact ih
+      | false =>
+        simp only [ha, Bool.false_eq_true, ↓reduceIte] at ih
+        simp only [List.any_cons, hx1, ha, Bool.or_self, Bool.false_eq_true, ↓reduceIte, List.cons_append, List.lookup, hx2]
+        exact ih
+
 /-! ### Reports of a session -/
 
 theorem foldl_collectStep_reports (env : Env) (enum : List String → List String) : ∀ (files : List Path) (st : World × List Report) (r : Report),
